@@ -33,7 +33,7 @@ LEVEL_TEXT = ('seeded exploration of queue histories and of producer/consumer in
               'per-producer order follow from linearizability against a FIFO model).')
 LEVEL_NOTE = 'trusted: reference model, SQLite, simulator kernel'
 
-PREFIXES = [None, 'a', 'b', 'a-5', 'a-b']
+PREFIXES = [None, 'a', 'b', 'a-5', 'a-b', 'é', '', '5', 'a-b-c', 'a%', 'a_']
 # ordinary keys outside the queue key ranges, including the range bounds themselves (the ranges are open intervals)
 ORDINARY = ['x', 'a', 'b-', -5, {'i': str(10 ** 15)}, {'b': b'a-500000000000000'.hex()}, 'a-', {'t': [1, 2]},
             0, 999999999999999, 'a-000000000000000', 'a-999999999999999', 'b-000000000000000']
@@ -74,7 +74,7 @@ def gen_case(seed, tier):
             elif q < 0.90:
                 k = rng.choice(ORDINARY)
                 op = rng.choice(({'op': 'set', 'k': k, 'v': c05.uniq_value(rng, 1, i, big_n)}, {'op': 'get', 'k': k},
-                                 {'op': 'delete', 'k': k}, {'op': 'len'}, {'op': 'iter'}))
+                                 {'op': 'delete', 'k': k}, {'op': 'len'}, {'op': 'iter'}, {'op': 'evict', 'tag': 't1'}))
                 prog.append(op)
                 continue
             else:
@@ -241,7 +241,18 @@ def run_conc(case):
 def run_case(case):
     if case['cfg']['kind'] != 'seq':
         return run_conc(case)
-    violations, stats = seqcache.run_prog(case, PROPERTY)
+    def on_step(cache, model, op, got, violations):
+        # the key returned by push identifies that item: it is an ordinary key of the cache
+        if op['op'] == 'push' and got[0] == 'ok' and model.pending is not None:
+            it = model.pending[2]
+            if it.rowid in model.rows:
+                present = it.key in cache
+                want = it.live(model.pending[1])
+                if present != want:
+                    violations.append({'rule': 'C10/pushed-key-not-addressable', 'sig': 'contains',
+                                       'detail': 'push returned %r; `key in cache` is %s, expected %s' % (it.key, present, want)})
+
+    violations, stats = seqcache.run_prog(case, PROPERTY, on_step=on_step)
     digest = hashlib.sha256(json.dumps([case['cfg'], case['prog']], sort_keys=True).encode()).hexdigest()
     nq = sum(1 for op in case['prog'] if op['op'] in ('push', 'pull', 'peek'))
     stats['probes']['queue_ops'] = nq
